@@ -18,7 +18,8 @@ def run(ck):
     for i, (T, pad, inp, seed, ycs, pol) in enumerate(cfg):
         lp = os.path.join(ck.scratch, "mon_%d.log" % i)
         logs[i] = lp
-        lines.append("s%d @WV_SCHED_SEED=%d,WV_YIELD_IN_CS=%d,WV_SCHED_POLICY=%d,WV_SCHED_LOG=%s pipe %d %d %s" % (i, seed, ycs, pol, lp, T, 1 if pad else 0, wv.hexs(inp)))
+        sp = ",WV_SPURIOUS=%d" % (pol // 10) if pol >= 10 else ""
+        lines.append("s%d @WV_SCHED_SEED=%d,WV_YIELD_IN_CS=%d,WV_SCHED_POLICY=%d%s,WV_SCHED_LOG=%s pipe %d %d %s" % (i, seed, ycs, pol % 10, sp, lp, T, 1 if pad else 0, wv.hexs(inp)))
     impl = wv.run_lines([exe], lines, env=env)
     dist = ck.cov.setdefault("case_classes", {})
     distinct = set()
@@ -37,7 +38,7 @@ def run(ck):
         v = ownership_monitor(evs)
         if v:
             ck.violation("ownership monitor: " + v, {"class": None, "T": T, "ispadding": pad, "input_hex": inp.hex(), "sched_seed": seed, "yield_in_cs": ycs, "policy": pol, "implementation": impl.get("s%d" % i, "")[:200],
-                                                     "driver_flags": ck.impl_flags, "events_tail": evs[-40:], "replay": "x @WV_SCHED_SEED=%d,WV_YIELD_IN_CS=%d,WV_SCHED_POLICY=%d pipe %d %d <input hex> fed to harness/drv.cpp built with -include harness/shim.h" % (seed, ycs, pol, T, 1 if pad else 0)})
+                                                     "driver_flags": ck.impl_flags, "events_tail": evs[-40:], "replay": "x @WV_SCHED_SEED=%d,WV_YIELD_IN_CS=%d,WV_SCHED_POLICY=%d%s pipe %d %d <input hex> fed to harness/drv.cpp built with -include harness/shim.h" % (seed, ycs, pol % 10, sp, T, 1 if pad else 0)})
         if len(ck.cov["samples"]) < 4:
             ck.cov["samples"].append({"T": T, "direction": "enc" if pad else "dec", "input_len": len(inp), "events": len(evs), "first_events": evs[:12], "monitor": v or "ok"})
     ck.cov["distinct_nontrivial"] = len(distinct)
